@@ -19,6 +19,9 @@ VERIF_DIR = os.path.dirname(os.path.dirname(os.path.realpath(__file__)))
 _STDLIB = os.path.realpath(sysconfig.get_paths()["stdlib"])
 
 
+FRAME_CLAUSE = {"map.rate": "C13", "convert": "C08"}
+
+
 class HarnessError(Exception):
     """A bug in /verif code (never a VIOLATION, never success)."""
 
@@ -263,6 +266,11 @@ class Session:
                 rel = "operand" if name in operands else (
                     "alias-of-operand" if any(o in w.parent and name in w.parent and w.find(o) == w.find(name) for o in operands) else "unrelated")
                 inv = "I1.frame" if out.mutates is None else "I2.frame"
+                also = FRAME_CLAUSE.get(kind)
+                if also and rel in ("operand", "alias-of-operand"):
+                    # "the original is untouched" (C13) / "the source is left untouched" (C08) are clauses of those properties too
+                    vs.append(Violation(also, inv, kind, self.step,
+                                        f"{kind}: the operand {name} ({type(hd.obj).__name__}) was changed by the call: " + diff_snap(before, after)[:600]))
                 vs.append(
                     Violation(
                         "C14", inv, kind, self.step,
